@@ -4,8 +4,8 @@ Engine: symx (solver-enumerated scenarios on REAL greenlets; LOW SOLVER LEVERAGE
 Real code: the unwrap_greenlet glue + unwrap_stackslice + extract.
 Oracle: a shadow call log (each level of each greenlet registers its own frame) and, for
 suspended greenlets, the gr_frame / f_back walk.
-The greenback half of the property (await_ bridges inside a Trio task with a portal) is NOT
-covered: it needs the Trio run loop (see C14).
+The greenback half (await_ bridges inside a Trio task with a portal) runs a real, deterministic
+trio.run per path (as C14 does).
 """
 from __future__ import annotations
 
@@ -219,6 +219,95 @@ def case_lifecycle(kind: int) -> Optional[str]:
         t.join(5)
 
 
+OB2 = "C15.greenback await_ bridges (real trio.run per path)"
+
+
+def greenback_case(depth: int, observe_from: int, with_contexts: bool) -> Optional[str]:
+    """A Trio task with a greenback portal alternates async -> sync (plain call) -> await_(async) ... `depth`
+    times; the innermost level blocks (observe_from 0: another task extracts the task) or extracts the
+    task itself (1).  The visible frames must be exactly the levels in order; bridging internals hidden."""
+    import warnings
+
+    import greenback
+    import trio
+    import trio.testing
+
+    box: Dict[str, Any] = {}
+
+    def observe() -> None:
+        with warnings.catch_warnings(record=True) as w:
+            warnings.simplefilter("always")
+            try:
+                box["st"] = stackscope.extract(box["task"], with_contexts=with_contexts)
+            except Exception as ex:
+                box["raised"] = repr(ex)
+        box["warnings"] = [str(x.message)[:160] for x in w]
+
+    def sync_level(k: int) -> Any:
+        return greenback.await_(async_level(k + 1))
+
+    async def async_level(k: int) -> Any:
+        if k >= depth:
+            if observe_from == 1:
+                observe()
+                return None
+            box["ev"] = trio.Event()
+            await box["ev"].wait()
+            return None
+        return sync_level(k)
+
+    async def main() -> None:
+        box["task"] = trio.lowlevel.current_task()
+        await greenback.ensure_portal()
+        await async_level(0)
+
+    async def outer() -> None:
+        async with trio.open_nursery() as n:
+            n.start_soon(main)
+            if observe_from == 0:
+                await trio.testing.wait_all_tasks_blocked()
+                observe()
+                box["ev"].set()
+
+    trio.run(outer)
+    if "raised" in box:
+        return f"extract raised {box['raised']}"
+    st = box["st"]
+    if st.error is not None:
+        return f"error {st.error!r}"
+    if box["warnings"]:
+        return "warning: " + box["warnings"][0]
+    vis = [f.funcname for f in st.frames if not f.hide]
+    exp = ["greenback_shim", "main", "async_level"] + ["sync_level", "async_level"] * depth
+    if observe_from == 0:
+        exp = exp + ["wait"]
+        if vis != exp:
+            return f"visible frames {vis} != {exp}"
+    else:
+        if vis[: len(exp)] != exp or vis[len(exp):] not in ([], ["observe"]):
+            return f"visible frames {vis} do not start with {exp}"
+    return None
+
+
+def _gb_shard(sh: Dict[str, Any]) -> Dict[str, Any]:
+    cex: List[Dict[str, Any]] = []
+    samples: List[Any] = []
+
+    def harness(e: Engine) -> None:
+        d = e.choice("alternation_depth", sh["maxdepth"] + 1)
+        o = e.choice("observe_from", 2)
+        wc = e.flag("with_contexts")
+        why = greenback_case(d, o, wc)
+        if len(samples) < 1:
+            samples.append({"greenback_depth": d, "observe_from": o})
+        if why and len(cex) < 3:
+            cex.append({"mode": 4, "depth": d, "observe_from": o, "wc": wc, "why": why})
+
+    eng = Engine(max_seconds=600)
+    eng.explore(harness)
+    return par.shard_result(eng, shard="greenback", cex=cex, samples=samples)
+
+
 def _shard(sh: Dict[str, Any]) -> Dict[str, Any]:
     cex: List[Dict[str, Any]] = []
     samples: List[Any] = []
@@ -272,15 +361,21 @@ def run(rep: Any, tier: str, seed: int) -> None:
     D = 2 if tier == "quick" else 3
     rep.bounds = {"parent chain": f"1..{N} nested greenlets", "call depth per greenlet": f"0..{D}", "asker": ["main greenlet (outside)", "the target itself", "a descendant, 0..1 calls deeper"],
                   "parent of the current greenlet": ["main", "unstarted", "dead"], "lifecycle": ["unstarted", "dead", "child greenlet running in another thread", "main greenlet of another thread running there"]}
-    rep.outside = ["greenback await_ bridges (need a Trio task with a portal; same reasons as C14)", "PyPy greenlets", "chains deeper than the bound"]
+    rep.bounds["greenback"] = f"sync/async alternation depth 0..{3 if tier == 'quick' else 6} inside a Trio task with a portal, observed from another task and from the innermost level, with_contexts on/off"
+    rep.outside = ["PyPy greenlets", "chains deeper than the bound", "greenback.async_context / with_portal_run variants", "free-running threads"]
     rep.assumptions = ["low solver leverage: finite scenario product certified complete by the solver"]
-    res = par.run_shards("harness.c15", "_shard", [{"nglets": n, "maxdepth": D} for n in range(1, N + 1)])
-    for c in par.fold(rep, OB, res):
+    res = par.run_mixed("harness.c15", [("_shard", {"nglets": n, "maxdepth": D}) for n in range(1, N + 1)]
+                        + [("_gb_shard", {"maxdepth": 3 if tier == "quick" else 6})])
+    for c in par.fold(rep, OB, [r for f, r in res if f == "_shard"]):
         rep.counterexample(OB, c, c["why"])
+    for c in par.fold(rep, OB2, [r for f, r in res if f == "_gb_shard"]):
+        rep.counterexample(OB2, c, c["why"])
 
 
 def replay(c: Dict[str, Any]) -> Dict[str, Any]:
-    if c["mode"] == 3:
+    if c["mode"] == 4:
+        why = greenback_case(c["depth"], c["observe_from"], c["wc"])
+    elif c["mode"] == 3:
         why = case_parent_state(c["state"], c["depth"])
     elif c["mode"] == 2:
         why = case_lifecycle(c["kind"])
